@@ -102,6 +102,39 @@ def inBox : List Float → List (Float × Float) → Bool
   | x :: xs, (lo, hi) :: bs => lo <= x && x <= hi && inBox xs bs
   | _, _ => true
 
+mutual
+  /-- number of pre-order factor slots of a space tree (a compound occupies a slot of its own). -/
+  def Sp.slots : Sp → Nat
+    | .rv _ _ => 1
+    | .so2 _ => 1
+    | .cmpd ps => 1 + Sp.slotsL ps
+  def Sp.slotsL : List Sp → Nat
+    | [] => 0
+    | p :: ps => p.slots + Sp.slotsL ps
+end
+
+mutual
+  /-- `setValidSegmentCountFactor(k)` on the node with pre-order number `slot` (a compound's own factor does
+  not enter its count: `CompoundStateSpace::validSegmentCount` only takes the maximum of its components'). -/
+  def Sp.setFac (slot k : Nat) : Sp → Sp
+    | .rv d f => if slot = 0 then .rv d k else .rv d f
+    | .so2 f => if slot = 0 then .so2 k else .so2 f
+    | .cmpd ps => if slot = 0 then .cmpd ps else .cmpd (Sp.setFacL (slot - 1) k ps)
+  def Sp.setFacL (slot k : Nat) : List Sp → List Sp
+    | [] => []
+    | p :: ps => if slot < p.slots then p.setFac slot k :: ps else p :: Sp.setFacL (slot - p.slots) k ps
+end
+
+/-- an armed nested call (`nest` line): at the `k`-th validity question of the next cm call the checker runs a
+complete `form` check of the motion `(a, b)` under the predicate `inv`, before it answers. -/
+structure NestArm where
+  k : Nat
+  form : String
+  a : List Float
+  b : List Float
+  hints : List Nat
+  inv : List Nat
+
 structure St where
   /-- `some sp`: the model computes `n`; `none`: `n` comes from `hint` -/
   sp : Option Sp
@@ -126,6 +159,12 @@ structure St where
   hintExtra : Bool := false
   cv : Nat := 0
   ci : Nat := 0
+  /-- `longestValidSegmentFraction_` as last set; `ctx.frac` is what the last `setup()` turned into
+  `longestValidSegment_` (the setter alone changes nothing a motion check reads) -/
+  pendFrac : Float := 0.01
+  /-- the validator `SpaceInformation::setDefaultMotionValidator` installs for this space -/
+  defVal : Validator := .discrete
+  nest : Option NestArm := none
 
 def kvs (ts : List String) : Option (List (String × String)) :=
   ts.mapM (fun t => match t.splitOn "=" with
@@ -156,7 +195,8 @@ def init (ts : List String) : Option St :=
     if valn != "default" && valn != "discrete" then none
     let ctx : Ctx := ⟨frac, lo, hi⟩
     let mk := fun (sp : Option Sp) (nreals : Nat) (v : Validator) =>
-      some ({ sp := sp, nreals := nreals, ctx := ctx, val := if valn == "discrete" then .discrete else v } : St)
+      some ({ sp := sp, nreals := nreals, ctx := ctx, val := if valn == "discrete" then .discrete else v,
+              pendFrac := frac, defVal := v } : St)
     match space, f with
     | "r1", [a] => mk (some (.rv 1 a)) 1 .discrete
     | "rn", [a] => mk (some (.rv dim a)) dim .discrete
@@ -190,6 +230,120 @@ def state? (st : St) (ts : List String) : Option (List Float × List String) :=
 
 def fracBits (j n : Nat) : String :=
   floatBits (Float.ofInt (fracOf j n).1 / Float.ofNat (fracOf j n).2)
+
+/-- `std::numeric_limits<double>::epsilon()` -/
+def dblEps : Float := Float.ofBits 0x3CB0000000000000
+
+/-- the hints a call gets: segment count / traversal length, path found / arrived, `isSatisfied(s2)`, extra candidate -/
+structure Hints where
+  n : Nat := 0
+  path : Bool := true
+  sat : Bool := true
+  extra : Bool := false
+
+def hintsOfList : List Nat → Option Hints
+  | [] => some {}
+  | [k] => some { n := k }
+  | [k, p] => if p ≤ 1 then some { n := k, path := p == 1 } else none
+  | [k, p, q] => if p ≤ 1 && q ≤ 1 then some { n := k, path := p == 1, sat := q == 1 } else none
+  | [k, p, q, x] => if p ≤ 1 && q ≤ 1 && x ≤ 1 then some { n := k, path := p == 1, sat := q == 1, extra := x == 1 } else none
+  | _ => none
+
+/-- `validSegmentCount(a, b)` under the CURRENT configuration (effective fraction `st.ctx.frac`, current factors) and
+whether the space finds a path: computed where the model has the distance, otherwise taken from the hints. -/
+def countOf (st : St) (h : Hints) (a b : List Float) : Nat × Bool :=
+  -- Dubins-type spaces: StateSpace::validSegmentCount with the curve length from C14's models and
+  -- longestValidSegment_ = (1.0 * extent(R^2 box) + 0.5 * pi) * fraction (CompoundStateSpace::getMaximumExtent)
+  let carN : Option Nat := match st.car, a, b with
+    | some (isRS, sym), [x1, y1, t1], [x2, y2, t2] =>
+      let p1 : OmplModel.Dubins.Pose Float := ⟨x1, y1, t1⟩
+      let p2 : OmplModel.Dubins.Pose Float := ⟨x2, y2, t2⟩
+      let d := if isRS then OmplModel.RS.rsDistance st.rho p1 p2 else OmplModel.Dubins.distance st.rho sym p1 p2
+      let ext := (0.0 + 1.0 * rvExtent st.ctx 2 0.0) + 0.5 * pi
+      d.map (fun dist => segCount st.topFac dist (ext * st.ctx.frac))
+    | _, _, _ => none
+  -- Vana: path (or its absence) from C14's `OmplModel.Vana.getPath`; distance = path length, or the maximum
+  -- extent when there is no path; extent = 1.0 * |R^4 box (x y z in [lo,hi], pitch in [-pi/6, pi/6])| + 0.5 * pi
+  let vanaNP : Option (Nat × Bool) := match st.isVana, a, b with
+    | true, [x1, y1, z1, p1, t1], [x2, y2, z2, p2, t2] =>
+      let d3 := st.ctx.hi - st.ctx.lo
+      let dp := sixthPi - (-sixthPi)
+      let ext := (0.0 + 1.0 * Float.sqrt ((((0.0 + d3 * d3) + d3 * d3) + d3 * d3) + dp * dp)) + 0.5 * pi
+      let L := ext * st.ctx.frac
+      match OmplModel.Vana.getPath false st.rho (-sixthPi) sixthPi 1e-8
+          (⟨x1, y1, z1, p1, t1⟩ : OmplModel.Vana.St5 Float) ⟨x2, y2, z2, p2, t2⟩ with
+      | some path => some (segCount st.topFac path.len L, true)
+      | none => some (segCount st.topFac ext L, false)
+    | _, _, _ => none
+  let pathOk := match vanaNP with
+    | some (_, p) => p
+    | none => h.path
+  let n := match st.sp, carN, vanaNP with
+    | some sp, _, _ => sp.seg st.ctx a b
+    | none, some k, _ => k
+    | none, none, some (k, _) => k
+    | none, none, none => h.n
+  (n, pathOk)
+
+/-- one complete `checkMotion` call (`cm2 | cm3 | cm3n`) on `(a, b)` under the current configuration.
+`ownInv = some l`: the call's own index predicate (a nested call); `none`: the installed checker's predicate.
+`before`: the counters when the call starts; `mid`: what calls nested inside it added.
+Returns the result line, the call's own counter increments and the number of validity questions it asks. -/
+def oneCall (st : St) (op : String) (h : Hints) (a b : List Float) (ownInv : Option (List Nat))
+    (before mid : Nat × Nat) : String × (Nat × Nat) × Nat :=
+  let (n, pathOk) := countOf st h a b
+  -- scripted predicate: an index set, or a box evaluated on the model's own interpolants
+  let useBox := ownInv.isNone && st.box.isSome
+  let invl : List Nat := match ownInv with
+    | some l => l
+    | none => match st.box, st.sp with
+      | some bx, some sp =>
+        let idx := if n == 0 then [0] else (List.range' 1 n)
+        idx.filter (fun j =>
+          if j == n then inBox b bx else inBox (sp.interp (Float.ofNat j / Float.ofNat n) a b) bx)
+      | _, _ => st.inv
+  let v : Nat → Bool := fun j => !invl.contains j
+  let invs := if useBox then " inv=" ++ qstr invl else ""
+  let cntOf := fun (dv di : Nat) =>
+    s!"cnt={before.1}/{before.2}->{before.1 + mid.1 + dv}/{before.2 + mid.2 + di}"
+  if st.constrained then
+    -- ConstrainedMotionValidator (as fixed by F120-F122); n = m + 1 with m traversal states
+    let m := n - 1
+    let r := if op == "cm2" then constrained2G st.tmode h.sat m pathOk v
+      else constrained3G st.tmode (op == "cm3") h.sat m pathOk v
+    let vb := if r.verdict then "1" else "0"
+    let b01 := fun (x : Bool) => if x then "1" else "0"
+    let tail := s!"{cntOf r.dValid r.dInvalid} amb=0 reached={b01 pathOk} sat={b01 h.sat}"
+    -- a traversal that visited all its m states, then gave up, looked at one more candidate ('x')
+    let ran := r.queries.filter (fun j => j != n && j != 0)
+    let gaveUp := h.extra && !pathOk && ran.length == m && ran.all v && (st.tmode == .proj || v 0)
+    let qs0 := if gaveUp then (if r.queries.isEmpty then "x" else qstr r.queries ++ ",x") else qstr r.queries
+    -- TangentBundleSpaceInformation: after an invalid motion the state handed back is re-projected, and
+    -- project() looks at the validity of the result ('p')
+    let withP := st.tmode == .tb && op == "cm3" && !r.verdict
+    let qs := if withP then (if qs0 == "-" then "p" else qs0 ++ ",p") else qs0
+    let asked := r.queries.length + (if gaveUp then 1 else 0) + (if withP then 1 else 0)
+    if op == "cm2" then (s!"v={vb} n={n} q={qs} {tail}", (r.dValid, r.dInvalid), asked)
+    else
+      let lv := if r.wroteSecond then "written" else "untouched"
+      let lvs := if op == "cm3n" then "null" else match r.back with
+        | some k => s!"g{k}"
+        | none => "untouched"
+      (s!"v={vb} n={n} lv={lv} lvs={lvs} q={qs} {tail}", (r.dValid, r.dInvalid), asked)
+  else
+    let r := if op == "cm2" then checkMotion2 st.val pathOk n v else checkMotion3 st.val pathOk n v
+    let vb := if r.verdict then "1" else "0"
+    let cnt := cntOf r.dValid r.dInvalid
+    if op == "cm2" then
+      (s!"v={vb} n={n} q={qstr r.queries} {cnt} amb=0{invs}", (r.dValid, r.dInvalid), r.queries.length)
+    else
+      let lv := match r.failAt with
+        | some j => fracBits j n
+        | none => "untouched"
+      let lvs := if op == "cm3n" then "null" else match r.failAt with
+        | some _ => "eq"
+        | none => "untouched"
+      (s!"v={vb} n={n} lv={lv} lvs={lvs} q={qstr r.queries} {cnt} amb=0{invs}", (r.dValid, r.dInvalid), r.queries.length)
 
 def step (st : St) (ts : List String) : St × String :=
   match ts with
@@ -263,6 +417,53 @@ def step (st : St) (ts : List String) : St × String :=
           | none => "untouched"
         (st, s!"v2={b r2.verdict} q2={qstr r2.queries} v3={b r3.verdict} first={first} q3={qstr r3.queries}")
     | _, _ => (st, "bad-op")
+  | ["swapvc", m] =>
+    -- a new checker object with the empty predicate is installed; nothing else changes
+    if m == "keep" || m == "drop" || m == "fn" then ({ st with inv := [], box := none }, "ok") else (st, "bad-op")
+  | ["setfrac", f] =>
+    match parseFloatBits? f with
+    | some x =>
+      if st.constrained then (st, "bad-op")
+      else if x < dblEps || x > 1.0 - dblEps then (st, "bad-op")
+      else ({ st with pendFrac := x }, "ok")      -- read by the next setup() only
+    | none => (st, "bad-op")
+  | ["setfac", s, k] =>
+    match s.toNat?, k.toNat? with
+    | some slot, some k =>
+      if st.constrained || k < 1 || k > 1000 then (st, "bad-op")
+      else match st.sp with
+        | some sp => if slot < sp.slots then ({ st with sp := some (sp.setFac slot k) }, "ok") else (st, "bad-op")
+        | none => if slot == 0 then ({ st with topFac := k }, "ok") else (st, "bad-op")
+    | _, _ => (st, "bad-op")
+  | ["setup"] => ({ st with ctx := { st.ctx with frac := st.pendFrac } }, "ok")
+  | ["setmv", m] =>
+    if m == "default" then
+      -- setMotionValidator(nullptr) + setup(): the space's default validator, fresh counters; setup() ran
+      ({ st with val := st.defVal, cv := 0, ci := 0, ctx := { st.ctx with frac := st.pendFrac } }, "ok")
+    else if m == "discrete" && !st.constrained && st.defVal != .dubins3D then
+      ({ st with val := .discrete, cv := 0, ci := 0 }, "ok")
+    else (st, "bad-op")
+  | ["resetcnt"] => ({ st with cv := 0, ci := 0 }, "ok")
+  | "nest" :: k :: mode :: form :: rest =>
+    match k.toNat?, state? st rest with
+    | some k, some (a, rest2) =>
+      match state? st rest2 with
+      | some (b, rest3) =>
+        match takeCounted rest3 with
+        | some (hs, rest4) =>
+          match takeCounted rest4, hs.mapM String.toNat? with
+          | some (iv, []), some hl =>
+            match iv.mapM String.toNat?, hintsOfList hl with
+            | some inv, some _ =>
+              if k < 1 || k > 1000000 || (mode != "same" && mode != "thread") ||
+                  (form != "cm2" && form != "cm3" && form != "cm3n") || (st.constrained && st.tmode != .proj) then
+                (st, "bad-op")
+              else ({ st with nest := some ⟨k, form, a, b, hl, inv⟩ }, "ok")
+            | _, _ => (st, "bad-op")
+          | _, _ => (st, "bad-op")
+        | none => (st, "bad-op")
+      | none => (st, "bad-op")
+    | _, _ => (st, "bad-op")
   | op :: rest =>
     if op != "cm2" && op != "cm3" && op != "cm3n" then (st, "bad-op")
     else
@@ -270,86 +471,21 @@ def step (st : St) (ts : List String) : St × String :=
       | some (a, rest2) =>
         match state? st rest2 with
         | some (b, []) =>
-          -- Dubins-type spaces: StateSpace::validSegmentCount with the curve length from C14's models and
-          -- longestValidSegment_ = (1.0 * extent(R^2 box) + 0.5 * pi) * fraction (CompoundStateSpace::getMaximumExtent)
-          let carN : Option Nat := match st.car, a, b with
-            | some (isRS, sym), [x1, y1, t1], [x2, y2, t2] =>
-              let p1 : OmplModel.Dubins.Pose Float := ⟨x1, y1, t1⟩
-              let p2 : OmplModel.Dubins.Pose Float := ⟨x2, y2, t2⟩
-              let d := if isRS then OmplModel.RS.rsDistance st.rho p1 p2 else OmplModel.Dubins.distance st.rho sym p1 p2
-              let ext := (0.0 + 1.0 * rvExtent st.ctx 2 0.0) + 0.5 * pi
-              d.map (fun dist => segCount st.topFac dist (ext * st.ctx.frac))
-            | _, _, _ => none
-          -- Vana: path (or its absence) from C14's `OmplModel.Vana.getPath`; distance = path length, or the maximum
-          -- extent when there is no path; extent = 1.0 * |R^4 box (x y z in [lo,hi], pitch in [-pi/6, pi/6])| + 0.5 * pi
-          let vanaNP : Option (Nat × Bool) := match st.isVana, a, b with
-            | true, [x1, y1, z1, p1, t1], [x2, y2, z2, p2, t2] =>
-              let d3 := st.ctx.hi - st.ctx.lo
-              let dp := sixthPi - (-sixthPi)
-              let ext := (0.0 + 1.0 * Float.sqrt ((((0.0 + d3 * d3) + d3 * d3) + d3 * d3) + dp * dp)) + 0.5 * pi
-              let L := ext * st.ctx.frac
-              match OmplModel.Vana.getPath false st.rho (-sixthPi) sixthPi 1e-8
-                  (⟨x1, y1, z1, p1, t1⟩ : OmplModel.Vana.St5 Float) ⟨x2, y2, z2, p2, t2⟩ with
-              | some path => some (segCount st.topFac path.len L, true)
-              | none => some (segCount st.topFac ext L, false)
-            | _, _, _ => none
-          let st := match vanaNP with
-            | some (_, pathOk) => { st with hintPath := pathOk }
-            | none => st
-          let n := match st.sp, carN, vanaNP with
-            | some sp, _, _ => sp.seg st.ctx a b
-            | none, some k, _ => k
-            | none, none, some (k, _) => k
-            | none, none, none => st.hintN
-          -- scripted predicate: an index set, or a box evaluated on the model's own interpolants
-          let invl : List Nat := match st.box, st.sp with
-            | some bx, some sp =>
-              let idx := if n == 0 then [0] else (List.range' 1 n)
-              idx.filter (fun j =>
-                if j == n then inBox b bx else inBox (sp.interp (Float.ofNat j / Float.ofNat n) a b) bx)
-            | _, _ => st.inv
-          let v : Nat → Bool := fun j => !invl.contains j
-          let invs := match st.box with
-            | some _ => " inv=" ++ qstr invl
-            | none => ""
-          if st.constrained then
-            -- ConstrainedMotionValidator (as fixed by F120-F122); n = m + 1 with m traversal states
-            let m := n - 1
-            let r := if op == "cm2" then constrained2G st.tmode st.hintSat m st.hintPath v
-              else constrained3G st.tmode (op == "cm3") st.hintSat m st.hintPath v
-            let st' := { st with cv := st.cv + r.dValid, ci := st.ci + r.dInvalid }
-            let vb := if r.verdict then "1" else "0"
-            let b01 := fun (x : Bool) => if x then "1" else "0"
-            let tail := s!"cnt={st.cv}/{st.ci}->{st'.cv}/{st'.ci} amb=0 reached={b01 st.hintPath} sat={b01 st.hintSat}"
-            -- a traversal that visited all its m states, then gave up, looked at one more candidate ('x')
-            let ran := r.queries.filter (fun j => j != n && j != 0)
-            let gaveUp := st.hintExtra && !st.hintPath && ran.length == m && ran.all v && (st.tmode == .proj || v 0)
-            let qs0 := if gaveUp then (if r.queries.isEmpty then "x" else qstr r.queries ++ ",x") else qstr r.queries
-            -- TangentBundleSpaceInformation: after an invalid motion the state handed back is re-projected, and
-            -- project() looks at the validity of the result ('p')
-            let qs := if st.tmode == .tb && op == "cm3" && !r.verdict then (if qs0 == "-" then "p" else qs0 ++ ",p") else qs0
-            if op == "cm2" then (st', s!"v={vb} n={n} q={qs} {tail}")
-            else
-              let lv := if r.wroteSecond then "written" else "untouched"
-              let lvs := if op == "cm3n" then "null" else match r.back with
-                | some k => s!"g{k}"
-                | none => "untouched"
-              (st', s!"v={vb} n={n} lv={lv} lvs={lvs} q={qs} {tail}")
-          else
-          let r := if op == "cm2" then checkMotion2 st.val st.hintPath n v else checkMotion3 st.val st.hintPath n v
-          let st' := { st with cv := st.cv + r.dValid, ci := st.ci + r.dInvalid }
-          let vb := if r.verdict then "1" else "0"
-          let cnt := s!"cnt={st.cv}/{st.ci}->{st'.cv}/{st'.ci}"
-          if op == "cm2" then
-            (st', s!"v={vb} n={n} q={qstr r.queries} {cnt} amb=0{invs}")
-          else
-            let lv := match r.failAt with
-              | some j => fracBits j n
-              | none => "untouched"
-            let lvs := if op == "cm3n" then "null" else match r.failAt with
-              | some _ => "eq"
-              | none => "untouched"
-            (st', s!"v={vb} n={n} lv={lv} lvs={lvs} q={qstr r.queries} {cnt} amb=0{invs}")
+          let h : Hints := { n := st.hintN, path := st.hintPath, sat := st.hintSat, extra := st.hintExtra }
+          let before := (st.cv, st.ci)
+          -- the call alone: its question count decides whether an armed nested call happens at all
+          let (line0, d0, asked) := oneCall st op h a b none before (0, 0)
+          match st.nest with
+          | none => ({ st with cv := st.cv + d0.1, ci := st.ci + d0.2 }, line0)
+          | some ne =>
+            let st1 := { st with nest := none }
+            if ne.k ≤ asked then
+              -- the nested call runs to completion in the middle of the outer one, on the same validator
+              let hN := (hintsOfList ne.hints).getD {}
+              let (lineN, dN, _) := oneCall st1 ne.form hN ne.a ne.b (some ne.inv) before (0, 0)
+              let (line, d, _) := oneCall st1 op h a b none before dN
+              ({ st1 with cv := st.cv + dN.1 + d.1, ci := st.ci + dN.2 + d.2 }, line ++ " || nested " ++ lineN)
+            else ({ st1 with cv := st.cv + d0.1, ci := st.ci + d0.2 }, line0 ++ " || nested=none")
         | _ => (st, "bad-op")
       | none => (st, "bad-op")
   | _ => (st, "bad-op")
